@@ -1,10 +1,10 @@
 (* C12 (read half) — Take, Chain and Reader bound and order exactly as documented; after any use the adapters
    show their inner buffers advanced by exactly the bytes that went through.  Pinned statements only.
    Every consuming operation of C09/C10 returns the tree `adv k b`; the equations below say what that is
-   for each adapter, for arbitrary nestings.  (Write half — Limit, chain_mut, Writer — in C12w below when M5 lands.) *)
+   for each adapter, for arbitrary nestings.  Write half (Limit, chain_mut, Writer) at the end, over the target trees of M5: `wr bs t` is the tree after accepting bs. *)
 From stdpp Require Import list.
 From Coq Require Import NArith.
-From BV Require Import Base Buf BufSpec BufLaws BufLaws2.
+From BV Require Import Base Buf BufSpec BufLaws BufLaws2 BufMut BufMutSpec BufMutLaws.
 Local Open Scope N_scope.
 
 Theorem C12_take_exposes_first_n : forall n b, den (Take n b) = firstnN n (den b).
@@ -34,6 +34,30 @@ Theorem C12_reader_read : forall k b, wf b ->
   reader_read k b = Ok (firstnN (N.min k (lenN (den b))) (den b), adv (N.min k (lenN (den b))) b).
 Proof. exact reader_read_spec. Qed.
 
+(* ---- write half ---- *)
+Theorem C12w_chain_fills_a_then_b : forall bs a b,
+  wr bs (ChainM a b) = ChainM (wr (firstnN (N.min (lenN bs) (roomZ a)) bs) a) (wr (skipN (N.min (lenN bs) (roomZ a)) bs) b).
+Proof. reflexivity. Qed.
+Theorem C12w_limit_after_use : forall bs n t, wr bs (LimitM n t) = LimitM (n - lenN bs) (wr bs t).
+Proof. reflexivity. Qed.
+Theorem C12w_limit_room : forall n t, roomZ (LimitM n t) = N.min (roomZ t) n.
+Proof. reflexivity. Qed.
+Section Oracle.
+  Variable grow : N -> N -> N -> N.
+  Variable Rv Rb R : N.
+  Hypothesis grow_ok : forall len cap add, len + add <= isize_max -> len + add <= grow len cap add <= isize_max.
+  Hypothesis Rv_pos : 0 < Rv. Hypothesis Rb_pos : 0 < Rb. Hypothesis Rv_le : Rv <= R. Hypothesis Rb_le : Rb <= R.
+  (* Writer::write accepts min(remaining_mut, len) bytes — the first ones — and never fails *)
+  Theorem C12w_writer : forall k src t, headroom R k t -> lenN src <= k -> k <= isize_max ->
+    let n := N.min (remaining_mut t) (lenN src) in
+    exists t', writer_write grow Rv Rb src t = Ok (n, t') /\ ecap t' = ecap (wr (firstnN n src) t).
+  Proof. exact (writer_write_spec grow Rv Rb R grow_ok Rv_pos Rb_pos Rv_le Rb_le). Qed.
+End Oracle.
+Theorem C12w_limit_accepts_at_most_n : forall R k n t, headroom R k (LimitM n t) -> remaining_mut (LimitM n t) <= n.
+Proof. intros R k n t H. rewrite (rm_roomZ R k _ H). simpl. apply N.le_trans with (N.min (roomZ t) n); [apply N.le_min_l|apply N.le_min_r]. Qed.
+Theorem C12w_set_limit : forall n lim t, set_limit_at_m [] lim (LimitM n t) = Some (LimitM lim t).
+Proof. reflexivity. Qed.
+
 Example C12_nonvacuous :
   let b := Take 5 (Fwd (Chain (Fwd (Take 2 (Fwd (Leaf (LSlice [1; 2; 3]))))) (Fwd (Leaf (LBytes [4; 5; 6; 7]))))) in
   den b = [1; 2; 4; 5; 6] /\
@@ -50,4 +74,10 @@ Print Assumptions C12_adv_additive.
 Print Assumptions C12_adv_zero.
 Print Assumptions C12_set_limit.
 Print Assumptions C12_reader_read.
+Print Assumptions C12w_chain_fills_a_then_b.
+Print Assumptions C12w_limit_after_use.
+Print Assumptions C12w_limit_room.
+Print Assumptions C12w_writer.
+Print Assumptions C12w_limit_accepts_at_most_n.
+Print Assumptions C12w_set_limit.
 Print Assumptions C12_nonvacuous.
